@@ -107,6 +107,9 @@ impl Property for C10 {
             "pre_seek": if rng.chance(1, 10) { json!(rng.below(initial.len() + 1)) } else { J::Null },
             // whole-executor runs: writer chunks that land after the constructor returned, before execute() is entered
             "land_after_new": if exec && rng.chance(1, 3) { rng.range(1, 3) } else { 0 },
+            // whole-executor runs with a plain statement: the user interrupts (running.store(false)) just before this seam
+            // event, at whatever state the follower is in then (a partial line pending at an EOF poll, mid-burst, ...)
+            "interrupt_at": if exec && !exec_agg && rng.chance(1, 3) { json!(rng.below(40)) } else { J::Null },
         })
     }
 
@@ -167,6 +170,11 @@ impl Property for C10 {
         spec.end_after_idle = Some(jusize(case, "idle", 1));
         spec.poll_cost_ns = jusize(case, "poll_ms", 0) as u64 * 1_000_000;
         spec.land_after_new = jusize(case, "land_after_new", 0);
+        if exec && !exec_agg {
+            if let Some(at) = case.get("interrupt_at").and_then(|x| x.as_u64()) {
+                spec.interrupt = Some(crate::seam::Interrupt::AtEvent(at as usize));
+            }
+        }
         out.probe("append_between_construction_and_execute", (exec && spec.land_after_new > 0 && !chunks.is_empty()) as u64);
         if let Some(pos) = case.get("pre_seek").and_then(|x| x.as_u64()) {
             spec.pre_seek = Some(pos.min(initial.len() as u64));
@@ -298,13 +306,17 @@ impl Property for C10 {
             let all_landed = content.len() == initial.len() + append.len();
             let _ = all_landed;
         }
-        match follow::check_follow(&res.log, &deliveries, &content, head, true) {
+        // an interrupted follower may stop early (after the next completed line): from the interrupt on only safety is
+        // demanded - what is delivered is still a prefix of the stream's complete lines, no tail, nothing altered
+        let interrupted = res.interrupted_at;
+        out.fault("interrupt_during_follow", interrupted.is_some() as u64);
+        match follow::check_follow_until(&res.log, &deliveries, &content, head, interrupted.is_none(), interrupted) {
             Ok(_) => {}
             Err(v) => {
                 out.violate(&format!("c10.{}", v.class), v.detail, features.clone());
             }
         }
-        if out.violation.is_none() && content.len() != initial.len() + append.len() {
+        if out.violation.is_none() && interrupted.is_none() && content.len() != initial.len() + append.len() {
             // the follower stopped while the writer still had data: lines can never be delivered
             let stream_lines = complete_lines(&whole).len();
             let seen_lines = complete_lines(&content).len();
